@@ -438,6 +438,16 @@ def compare_kinds(rep, per_kind, lm, rname, mode, info):
             if (x is None or y is None) and key != "creation":
                 continue
             nx, ny = norm(x, y, skipped), norm(y, x, skipped)
+            if rname == "omit" and key == "dump" and "typed_dict" in (base, k) and nx != ny and \
+                    isinstance(nx, tuple) and isinstance(ny, tuple) and nx[0] == ny[0] == "ok" and isinstance(nx[1], dict) and isinstance(ny[1], dict):
+                # documented limitation: a TypedDict has no defaults, so omit_default has nothing to omit there; the other
+                # kind may leave out exactly the optional fields that hold their default
+                td, other_ = (nx[1], ny[1]) if base == "typed_dict" else (ny[1], nx[1])
+                dflt = {f["name"]: f["default"] for f in lm if not f["required"]}
+                extra = set(td) - set(other_)
+                if set(other_) <= set(td) and all(e in dflt and td[e] == dflt[e] for e in extra) and \
+                        all(td[c] == other_[c] for c in other_):
+                    continue
             if nx != ny:
                 rep.violation(f"kinds-differ:{rname}:{key}:{base}-vs-{k}", "property-violated",
                               dict(info, recipe=rname, debug_trail=mode,
